@@ -23,6 +23,11 @@ def class_desc(draw, max_alpha=3, max_stats=3, allow_prefix=True, tier="quick", 
     pats = draw(
         st.lists(words(alphabet, min_size=1, max_size=maxlen), min_size=npat, max_size=npat, unique=True)
     )
+    if k >= 2 and draw(st.integers(0, 6)) == 0:
+        # close the patterns under exchanging the first two letters: letter symmetries
+        # then map classes of the universe onto each other
+        tau = {alphabet[0]: alphabet[1], alphabet[1]: alphabet[0]}
+        pats = sorted(set(pats) | {"".join(tau.get(l, l) for l in p) for p in pats})
     prefix = ""
     if allow_prefix and draw(st.integers(0, 5)) == 0:
         prefix = draw(words(alphabet, 0, 3))
@@ -137,6 +142,11 @@ def factor_settings(cls):
 
 
 @st.composite
+def letter_desc(draw):
+    return ["LetterSwap", {"shift": draw(st.integers(0, 2)), "swap": draw(st.booleans())}]
+
+
+@st.composite
 def unary_desc(draw):
     two_way = draw(st.integers(0, 3)) > 0
     if draw(st.integers(0, 3)) == 0:
@@ -196,6 +206,19 @@ def pack_desc(draw, has_stats=True, finite=False, atoms_only=False, allow_iterat
         initial.append(draw(unary_desc()))
     for _ in range(draw(st.sampled_from([0, 0, 0, 1, 1, 2]))):
         inferral.append(draw(unary_desc()))
+    if draw(st.integers(0, 5)) == 0:
+        # the same unary rule offered twice: one-way by one strategy, two-way by another
+        u = draw(unary_desc())
+        v = [u[0], dict(u[1])]
+        u[1]["two_way"], v[1]["two_way"] = draw(st.sampled_from([(False, True), (True, False)]))
+        slots = draw(st.sampled_from([("inferral", "initial"), ("initial", "inferral"), ("initial", "initial"), ("initial", "expansion"), ("expansion", "initial")]))
+        for slot, d in zip(slots, (u, v)):
+            if slot == "expansion":
+                twin_exp = d
+            else:
+                (inferral if slot == "inferral" else initial).append(d)
+    else:
+        slots = ()
     nsets = draw(st.sampled_from([1, 1, 1, 2, 2, 3]))
     have_expand = False
     for i in range(nsets):
@@ -218,6 +241,8 @@ def pack_desc(draw, has_stats=True, finite=False, atoms_only=False, allow_iterat
         expansion.append(s)
     if not have_expand and draw(st.integers(0, 9)) < 9:
         expansion[-1].append(draw(expand_desc()))
+    if "expansion" in slots:
+        expansion[0].append(twin_exp)
     if draw(st.integers(0, 7)) < (6 if factors else 1):
         f = draw(factor_desc())
         if factors and draw(st.integers(0, 4)) > 0:
@@ -236,7 +261,22 @@ def pack_desc(draw, has_stats=True, finite=False, atoms_only=False, allow_iterat
         else:
             expansion[0].extend(pair)
     if draw(st.integers(0, 3)) == 0:
-        sym.append(["LetterSwap", {"shift": draw(st.integers(1, 2))}])
+        sym.append(draw(letter_desc()))
+        if draw(st.integers(0, 2)) == 0:
+            sym.append(draw(letter_desc()))
+    if draw(st.integers(0, 5)) == 0:
+        # letter symmetries as ordinary strategies: equivalence paths whose object maps
+        # are not the identity (two of them do not commute on three letters)
+        syms = [draw(letter_desc())]
+        if draw(st.booleans()):
+            syms.append(draw(letter_desc()))
+        where = draw(st.integers(0, 3))
+        if where == 0 and not any(s_[0] == "LetterSwap" for s_ in inferral):
+            inferral.append(syms[0])  # one only: two could rewrite each other's result for ever
+        elif where == 1:
+            initial.extend(syms)
+        else:
+            expansion[draw(st.integers(0, len(expansion) - 1))].extend(syms)
     return {
         "initial": initial,
         "inferral": inferral,
@@ -302,12 +342,59 @@ def reverse_template(draw, tier="quick"):
 
 
 @st.composite
+def mirror_template(draw, tier="quick"):
+    """A two-letter universe whose patterns are closed under exchanging the letters,
+    an Expand that is switched off for some prefixes, and the letter exchange as an
+    ordinary strategy (inferral, initial or in a later expansion set): classes that
+    cannot be expanded are reached only through their mirror image, so a two-way
+    equivalence found late (possibly after a poll for a specification) completes
+    the specification."""
+    x, y = draw(st.sampled_from([("a", "b"), ("b", "a")]))
+    tau = {"a": "b", "b": "a"}
+    base = draw(st.lists(st.text(alphabet="ab", min_size=2, max_size=3), min_size=1, max_size=2, unique=True))
+    pats = sorted(set(base) | {"".join(tau[l] for l in p) for p in base})
+    nstats = draw(st.sampled_from([0, 0, 1, 2]))
+    stats = [draw(st.sampled_from(["", "ab", "z", "abz"])) for _ in range(nstats)]
+    prefix = draw(st.sampled_from(["", "", x]))
+    if any(p in prefix for p in pats):
+        prefix = ""
+    cls = ["ab", prefix, pats, 0, stats, draw(st.integers(0, 1)) if nstats else 0, 0]
+    skip = draw(st.sampled_from([[y], [y], [y + x], [y + y], [x + y], [y, x + y], []]))
+    swap = ["LetterSwap", {"shift": 1}]
+    expand = ["Expand", {"order": draw(st.integers(0, 3)), "skip_prefixes": skip}]
+    pack = {
+        "initial": [draw(peel_desc())] if draw(st.booleans()) else [],
+        "inferral": [],
+        "expansion": [[expand]],
+        "ver": [["WordAtom", {}]],
+        "symmetries": [],
+        "iterative": False,
+    }
+    where = draw(st.sampled_from(["later-set", "later-set", "inferral", "initial", "same-set"]))
+    if where == "later-set":
+        pack["expansion"].append([swap])
+    elif where == "inferral":
+        pack["inferral"].append(swap)
+    elif where == "initial":
+        pack["initial"].append(swap)
+    else:
+        pack["expansion"][0].append(swap)
+    return cls, pack
+
+
+@st.composite
 def scenario(draw, tier="quick", dbs=None, finite=False, atoms_only=False, allow_iterative=True, allow_pack=True,
              allow_reverse_template=True, min_stats=0):
     template = allow_reverse_template and not finite and draw(st.integers(0, 7)) == 0
+    mirror = not template and draw(st.integers(0, 11)) == 0
     if template:
         cls, pack = draw(reverse_template(tier))
         db = draw(st.sampled_from([d for d in (dbs or DBS) if d == "Forest"] * 3 + list(dbs or DBS)))
+    elif mirror:
+        cls, pack = draw(mirror_template(tier))
+        if finite and not any(s_[0] == "Peel" for s_ in pack["initial"]):
+            pack["initial"].insert(0, draw(peel_desc()))
+        db = draw(st.sampled_from(dbs or DBS))
     else:
         cls = draw(class_desc(tier=tier, min_stats=min_stats))
         pack = draw(pack_desc(has_stats=bool(cls[4]), finite=finite, atoms_only=atoms_only,
@@ -318,7 +405,7 @@ def scenario(draw, tier="quick", dbs=None, finite=False, atoms_only=False, allow
         call["smallest"] = False  # the bounded DFS behind 'smallest' is exponential on big universes
     return {
         "class": cls,
-        "compressed": draw(st.integers(0, 5)) == 0,
+        "compressed": draw(st.sampled_from([0, 0, 0, 0, 0, 1, 1, 3])),  # 1: byte-encoded keys, 3: colliding hashes
         "pack": pack,
         "db": db,
         "expand_verified": True if template else draw(st.integers(0, 5)) == 0,
